@@ -379,7 +379,9 @@ def generate(repo):
         L.append(f'/-- `_dft2_matrices` (line {fns["_dft2_matrices"].lineno}): matrix {k} is `np.exp(fwExpCoeff{k} · 1j · π · t)` with `t` this value at '
                  f'entry `[row, col]`{" (after `.T`)" if mt["transposed"] else ""} -/\n'
                  f'def fwE{k}Arg (ofInt : Int → R) {sig} (row col : Int) : R :=\n  {mt["arg"]}\n'
-                 f'def fwExpCoeff{k} : Int := {mt["coeff"]}\n')
+                 f'def fwExpCoeff{k} : Int := {mt["coeff"]}\n'
+                 f'/-- the head of that exponent, `c * 1j * np.pi * t`, as the real phase `φ` with entry = `exp(1j · φ)` -/\n'
+                 f'def fwExpPhase{k} (ofInt : Int → R) (pi t : R) : R := ofInt ({mt["coeff"]}) * pi * t\n')
     dsig = '(m n : Int) (alpha0 alpha1 : R) (shape0 shape1 : Int) (shift0 shift1 : R) (offset0 offset1 : Int)'
     pas = ' '.join(d['passed'][p] for p in mparams)
     for k in (1, 2):
